@@ -50,6 +50,14 @@ Lemma flat_map_map {A B C} (g : B -> list C) (f : A -> B) (l : list A) :
   flat_map g (map f l) = flat_map (fun x => g (f x)) l.
 Proof. induction l as [|x l IH]; cbn [flat_map map]; [reflexivity|]. rewrite IH. reflexivity. Qed.
 
+Lemma flat_map_app' {A B} (g : A -> list B) (l1 l2 : list A) :
+  flat_map g (l1 ++ l2) = flat_map g l1 ++ flat_map g l2.
+Proof. induction l1 as [|x l1 IH]; cbn [app flat_map]; [reflexivity|]. rewrite IH, app_assoc. reflexivity. Qed.
+
+Lemma flat_map_flat_map {A B C} (g : B -> list C) (f : A -> list B) (l : list A) :
+  flat_map g (flat_map f l) = flat_map (fun x => flat_map g (f x)) l.
+Proof. induction l as [|x l IH]; cbn [flat_map]; [reflexivity|]. rewrite flat_map_app', IH. reflexivity. Qed.
+
 (* ---------------------------------------------------------------- nseq / nrange *)
 Lemma nseq_length s n : length (nseq s n) = n.
 Proof. revert s; induction n; intros; cbn [nseq length]; [reflexivity|]. rewrite IHn; reflexivity. Qed.
@@ -89,6 +97,9 @@ Qed.
 
 Lemma nseq_ext s s' n : s = s' -> nseq s n = nseq s' n.
 Proof. intros ->; reflexivity. Qed.
+
+Lemma nseq_ext2 s s' n n' : s = s' -> n = n' -> nseq s n = nseq s' n'.
+Proof. intros -> ->; reflexivity. Qed.
 
 Lemma NoDup_nseq s n : NoDup (nseq s n).
 Proof.
